@@ -53,11 +53,12 @@ static int run_case(const struct ecimpl *im, int len, int k, int rows, int soff,
 		dst[r] = doff < 0 ? g_alloc(len, G_END) : g_alloc_off(len, doff);
 		memset(dst[r], 0xAA, len);
 	}
+	v_pcall_mode = 1 + (len & 1); /* kernel entered with poisoned caller-saved registers (engine/pcall.S) */
 	if (V_TRY()) {
 		switch (im->kind) {
-		case K_DP1: ((dp1_fn)im->fn)(len, k, tbl, src, dst[0]); break;
-		case K_DPN: ((dpn_fn)im->fn)(len, k, tbl, src, dst); break;
-		default: ((enc_fn)im->fn)(len, k, rows, tbl, src, dst); break;
+		case K_DP1: PCALL(im->fn, len, k, tbl, src, dst[0]); break;
+		case K_DPN: PCALL(im->fn, len, k, tbl, src, dst); break;
+		default: PCALL(im->fn, len, k, rows, tbl, src, dst); break;
 		}
 		V_END();
 	} else {
